@@ -888,7 +888,7 @@ func init() {
 		CaseTimeout: 30,
 		Rule: "four workloads in crash-isolated worker processes (panic => violation via recover, process death and hangs via the driver's progress log and watchdogs): " +
 			"(1) complete sweeps: every registered filter (from the verif hook) x every zoo value (about 100 Go values: nil, strings incl. invalid UTF-8, every int/uint/float kind with extremes/NaN/Inf, slices, arrays, maps with string/int/float/bool/named keys, structs with unexported and embedded fields, pointers incl. typed nil, Stringers, time, errors, *Value, functions of accepted and rejected shapes) x 35 parameters through ApplyFilter and {{ v|f:p }}; every zoo value x every resolver step x (quick: a seed-dependent 1/20, thorough: every) second step; 88 tag/operator forms x every zoo value in the argument slot; the same steps and forms once more as ONE compiled template executed with every zoo value in turn (shuffled, then reversed); 20 inner constructs inside each of 15 wrappers (if, for, with, local and imported macro body, block, child and parent block, filter, spaceless, autoescape, ifchanged, included file, ssi parsed) plus random wrapper stacks, through the four Execute entry points, ExecuteBlocks, FromCache and RenderTemplate*; " +
-			"(2) grammar-generated programs over all tags/filters/operators with loader files, 3 contexts, TrimBlocks/LStripBlocks settings, the four Execute entry points; (3) byte-level mutations of the repository's fixtures and of generated programs; (4) 40 resource shapes (deep nesting, long chains, every macro recursion route, cyclic include/extends/import/ssi graphs). " +
+			"(2) grammar-generated programs over all tags/filters/operators with loader files, 3 contexts, TrimBlocks/LStripBlocks settings, the four Execute entry points; (3) byte-level mutations of the repository's fixtures and of generated programs; (4) 48 resource shapes (concurrent loads of good, broken, missing and panicking names; deep nesting, long chains, every macro recursion route, cyclic include/extends/import/ssi graphs). " +
 			"Oracle: exactly one of template/error, exactly one of output/error, no panic, no process death, every case finishes within the watchdog. distinct_nontrivial = distinct sweep cells, compiled programs and byte inputs.",
 		MinNontriv:  5000,
 		Assumptions: []string{"context functions and Stringers of the harness are total", "Must*, NewSet without loaders and Render* on malformed sources are documented to panic and are not exercised"},
